@@ -392,6 +392,12 @@ func (u *Unit) havocFrame(st *State, pre *State, c *Contract, name string, bind 
 						found = true
 					}
 				}
+				if want == "basic-data" && c.Extern {
+					// assumed: third-party code does not write basic-typed cells, elements or maps that belong
+					// to objects of the preserved packages (the model still forgets their content)
+					found = true
+					u.usedExternal["assumed: "+shortName(name)+" writes no basic-typed data owned by preserved objects"] = true
+				}
 				if !found {
 					ok = false
 				}
